@@ -52,11 +52,6 @@ pub open spec fn any_pat(fs: Seq<&str>, p: spec_fn(Seq<u8>) -> bool) -> bool {
 //@ CLOSURE filters.any
     |f: &str| -> (b: bool) ensures b == contains_pat(req_url(*request, mask), f.spec_bytes())
 //@ ENDCLOSURE
-//@ AFTER
-    let request_url = request.get_url(mask.match_case());
-//@ AT
-    proof { assert(request_url.spec_bytes() == req_url(*request, mask)); assert(request_url@ == req_url_view(*request, mask)); }
-//@ ENDAFTER
 //@END
 
 pub open spec fn ends_pat(u: Seq<u8>, f: Seq<u8>) -> bool { has_suffix(u, f) }
@@ -76,11 +71,6 @@ pub open spec fn same_text(u: Seq<char>, f: Seq<char>) -> bool { u == f }
 //@ CLOSURE filters.any
     |f: &str| -> (b: bool) ensures b == ends_pat(req_url(*request, mask), f.spec_bytes())
 //@ ENDCLOSURE
-//@ AFTER
-    let request_url = request.get_url(mask.match_case());
-//@ AT
-    proof { assert(request_url.spec_bytes() == req_url(*request, mask)); assert(request_url@ == req_url_view(*request, mask)); }
-//@ ENDAFTER
 //@END
 
 //@EXTRACT src/filters/network_matchers.rs :: fn check_pattern_left_anchor_filter
@@ -96,11 +86,6 @@ pub open spec fn same_text(u: Seq<char>, f: Seq<char>) -> bool { u == f }
 //@ CLOSURE filters.any
     |f: &str| -> (b: bool) ensures b == starts_pat(req_url(*request, mask), f.spec_bytes())
 //@ ENDCLOSURE
-//@ AFTER
-    let request_url = request.get_url(mask.match_case());
-//@ AT
-    proof { assert(request_url.spec_bytes() == req_url(*request, mask)); assert(request_url@ == req_url_view(*request, mask)); }
-//@ ENDAFTER
 //@END
 
 //@EXTRACT src/filters/network_matchers.rs :: fn check_pattern_left_right_anchor_filter
@@ -116,11 +101,6 @@ pub open spec fn same_text(u: Seq<char>, f: Seq<char>) -> bool { u == f }
 //@ CLOSURE filters.any
     |f: &str| -> (b: bool) ensures b == same_text(req_url_view(*request, mask), f@)
 //@ ENDCLOSURE
-//@ AFTER
-    let request_url = request.get_url(mask.match_case());
-//@ AT
-    proof { assert(request_url.spec_bytes() == req_url(*request, mask)); assert(request_url@ == req_url_view(*request, mask)); }
-//@ ENDAFTER
 //@END
 
 // ---- ||host shapes --------------------------------------------------------------------------------------------
